@@ -14,7 +14,7 @@ Token = frozenset of facts
 Write classes come from buffer provenance (DESIGN 2.1), zero/punch classes
 from the provenance of the offset.
 """
-from .interp import Domain, Interp, Program, short, head, is_identity_call
+from .interp import Domain, Interp, Program, short, head, is_identity_call, tag_of_operand
 from .facts import AnalysisError
 
 TABLE_CLS = {
@@ -77,7 +77,9 @@ class Classifier:
         return r
 
     def _pick(self, found, want):
-        if want == 'buf':
+        if want == 'len':
+            order = ('LEN:', 'INH:')
+        elif want == 'buf':
             order = ('TBL:', 'HDR', 'ZERO', 'IOBUF', 'INH:')
         elif want == 'off':
             order = ('OFF:', 'C:', 'INH:')
@@ -133,6 +135,9 @@ class Classifier:
                         if self._pick(rf, 'tbl') == 'LOCALTBL':
                             priv = ':P'
                     out.add('TBL:' + (c or '?') + priv)
+                    continue
+                if 'trait' in t and t['trait'] == 'meta::table::Table' and name == 'byte_size':
+                    out.add('LEN:FULL')
                     continue
                 if 'trait' in t and t['trait'] == 'meta::table::Table' and name == 'get_offset':
                     c = table_cls(self.f, self.p.subst(t['a'][0], fr.ctx))
@@ -617,6 +622,18 @@ class FlowDomain(Domain):
     # ---------------------------------------------------------------- RAM events
     def intercept(self, ip, fr, tok, tags, bi, term, callee):
         sc = short(callee)
+        role = self.setter_role(callee)
+        if role is not None and role[0] in ('need_flush', 'dirty') and role[1] < len(term['args']):
+            val = tag_of_operand(term['args'][role[1]], tags)
+            if val is None and term['args'][role[1]]['k'] == 'const' and 'v' in term['args'][role[1]]:
+                val = 'T' if term['args'][role[1]]['v'] != '0' else 'F'
+            if val is not None and val.startswith('int:'):
+                val = 'T' if val != 'int:0' else 'F'
+            cls = self.entry_cls(fr, term) if role[0] == 'dirty' else None
+            return [(self.store_event(ip, fr, tok, bi, role[0], val, cls), None)]
+        if callee.endswith('::commit_wmap') and 'AsyncLruCache' in callee:
+            cls = self.entry_cls(fr, term)
+            return [(tok | {('VICTIMS', cls)}, 'some()'), (tok, 'none')]
         # top-table dirty queue
         if term.get('trait') == 'meta::table::Table' and term.get('name') == 'pop_dirty_blk_idx':
             c = table_cls(self.f, self.p.subst(term['a'][0], fr.ctx))
@@ -627,7 +644,12 @@ class FlowDomain(Domain):
         if term.get('trait') == 'meta::table::Table' and term.get('name') == 'set_dirty':
             c = table_cls(self.f, self.p.subst(term['a'][0], fr.ctx))
             if c in TOP:
-                return [(tok | {('RAM', c)}, None)]
+                recv = self.cl.classify(ip, fr, term['args'][0], 'tbl')
+                if recv == 'LOCALTBL':
+                    # a table still private to this task: published (and flushed) by the header switch
+                    return [(tok, None)]
+                self._site('topdirty', fr, bi, c)
+                return [(tok | {('RAM', c), ('NEEDFLAG', short(fr.body.path))}, None)]
             return [(tok, None)]
         if callee.endswith('::get_dirty_entries') and 'AsyncLruCache' in callee:
             c = None
@@ -662,14 +684,15 @@ class FlowDomain(Domain):
             tg = self.cl.classify(ip, fr, recv, 'tbl')
             if tg == 'LOCALTBL':
                 return [(tok, None)]
-            ntok = tok | {('RAM', 'RC')}
+            ntok = tok | {('RAM', 'RC'), ('MUT', 'RB')}
             if callee.endswith('decrement'):
                 self.check_free(ip, fr, bi, tok)
             return [(ntok, 'ok()'), (tok, 'err')]
         if callee.endswith('L2Table::map_cluster'):
             self._site('map', fr, bi)
             # replacing an allocation is an implicit unreference of the old clusters
-            return [(tok | {('RAM', 'L2'), ('UNREF', 'L2', 'RAM')}, 'some()'), (tok | {('RAM', 'L2')}, 'none')]
+            return [(tok | {('RAM', 'L2'), ('MUT', 'L2'), ('UNREF', 'L2', 'RAM')}, 'some()'),
+                    (tok | {('RAM', 'L2'), ('MUT', 'L2')}, 'none')]
         if term.get('trait') == 'meta::table::Table' and term.get('name') == 'set':
             c = table_cls(self.f, self.p.subst(term['a'][0], fr.ctx))
             recv = self.cl.classify(ip, fr, term['args'][0], 'tbl')
@@ -677,7 +700,7 @@ class FlowDomain(Domain):
                 return [(tok, None)]
             if c == 'L2':
                 self._site('unmap', fr, bi)
-                return [(tok | {('RAM', 'L2'), ('UNREF', 'L2', 'RAM')}, None)]
+                return [(tok | {('RAM', 'L2'), ('MUT', 'L2'), ('UNREF', 'L2', 'RAM')}, None)]
             return None
         if callee.endswith('Qcow2Header::set_reftable') or callee.endswith('Qcow2Header::set_l1_table'):
             off = self.cl.classify(ip, fr, term['args'][1], 'off')
@@ -753,7 +776,113 @@ class FlowDomain(Domain):
                        'can leave the reference durable and the refcount released (under-count); path %s' % (
                            freer, k, fr.chain_str()))
 
+    # ---------------------------------------------------------------- atomic flag stores
+    def _stored_field(self, body, term):
+        """Name of the struct field whose AtomicBool is stored to, or None."""
+        a0 = term['args'][0]
+        if a0['k'] not in ('copy', 'move'):
+            return None
+        pl = a0['pl']
+        fs = [e['n'] for e in pl['p'] if e['k'] == 'field']
+        if fs:
+            return fs[-1]
+        for d in self.p.defs(body).get(pl['l'], []):
+            if d[0] == 'st':
+                rv = body.blocks[d[1]]['st'][d[2]]['rv']
+                if rv['k'] == 'ref':
+                    fs = [e['n'] for e in rv['pl']['p'] if e['k'] == 'field']
+                    if fs:
+                        return fs[-1]
+        return None
+
+    def setter_role(self, callee):
+        """(field, value parameter index) if `callee` only stores one of its
+        parameters into an AtomicBool field of self."""
+        if not hasattr(self, '_setc'):
+            self._setc = {}
+        if callee not in self._setc:
+            res = None
+            b = self.f.body(callee)
+            if b is not None and not b.is_coroutine and len(b.blocks) <= 4:
+                for bi, t in b.calls():
+                    if t.get('fn', '').endswith('Atomic::<bool>::store'):
+                        fld = self._stored_field(b, t)
+                        v = t['args'][1]
+                        if fld and v['k'] in ('copy', 'move'):
+                            roots = self.p.place_origins(b, v['pl'])
+                            for r in roots:
+                                if r[0] == 'arg':
+                                    res = (fld, r[1] - 1)
+            self._setc[callee] = res
+        return self._setc[callee]
+
+    def entry_cls(self, fr, term):
+        """Table class of the cache entry a method is invoked on."""
+        a0 = term['args'][0]
+        if a0['k'] not in ('copy', 'move'):
+            return None
+        return self.table_in_type(fr.body.locals[a0['pl']['l']], fr.ctx)
+
+    def table_in_type(self, tid, ctx, _seen=None):
+        if _seen is None:
+            _seen = set()
+        tid = self.p.subst(tid, ctx)
+        if tid is None or tid < 0 or tid in _seen:
+            return None
+        _seen.add(tid)
+        t = self.f.types[tid]
+        if t['k'] == 'adt' and t['p'] in TABLE_CLS:
+            return TABLE_CLS[t['p']]
+        for k in ('a', 'u'):
+            for x in t.get(k, []):
+                r = self.table_in_type(x, ctx, _seen)
+                if r:
+                    return r
+        if isinstance(t.get('t'), int):
+            return self.table_in_type(t['t'], ctx, _seen)
+        return None
+
+    def store_event(self, ip, fr, tok, bi, field, val, cls):
+        me = short(fr.body.path)
+        if field == 'need_flush':
+            self._site('flag', fr, bi, str(val))
+            if val == 'T':
+                return frozenset(x for x in tok if x[0] != 'NEEDFLAG')
+            if val == 'F':
+                ram = sorted(x[1] for x in tok if x[0] == 'RAM')
+                self._ob('C18.2', fr, bi, not ram, 'need_flush cleared in %s; RAM-dirty kinds at that point: %s' % (me, ram))
+                if ram:
+                    self._viol('C18.2', 'C18.2:%s' % me, fr, bi,
+                               '%s clears need_flush on a path on which metadata of kind %s may still be dirty only '
+                               'in RAM (the clear is not justified by a completed sweep of both top tables and both '
+                               'caches); path %s' % (me, ram, fr.chain_str()))
+                return tok
+            self.undecided.append('%s: need_flush stored with a value the engine cannot decide' % fr.where(bi))
+            return frozenset(x for x in tok if x[0] != 'NEEDFLAG')
+        if field == 'dirty':
+            kind = {'RB': 'RB', 'L2': 'L2'}.get(cls)
+            self._site('dirtyflag', fr, bi, '%s %s' % (cls, val))
+            if val == 'T':
+                out = frozenset(x for x in tok if not (x[0] == 'MUT' and x[1] == kind)
+                                and not (x[0] == 'F' and len(x) > 2 and x[1] in ('CLEANED', 'CLEANPENDING') and x[2] == cls))
+                ram = 'RC' if cls == 'RB' else 'L2'
+                return out | {('NEEDFLAG', me), ('RAM', ram)}
+            if val == 'F':
+                out = set(tok)
+                if ('F', 'WROTE', cls) not in tok:
+                    out.add(('F', 'CLEANPENDING', cls))
+                out.add(('F', 'CLEANED', cls))
+                return frozenset(out)
+            self.undecided.append('%s: dirty flag stored with a value the engine cannot decide' % fr.where(bi))
+        return tok
+
     def on_leaf_call(self, ip, fr, tok, tags, bi, term, fn):
+        if fn is not None and fn.endswith('Atomic::<bool>::store') and len(term['args']) > 1:
+            fld = self._stored_field(fr.body, term)
+            if fld in ('need_flush', 'dirty'):
+                val = tag_of_operand(term['args'][1], tags)
+                cls = self.table_in_type(fr.body.locals[1], fr.ctx) if fr.body.argc >= 1 else None
+                tok = self.store_event(ip, fr, tok, bi, fld, val, cls)
         if fn in ('std::mem::drop', 'core::mem::drop') and term['args'] and term['args'][0]['k'] == 'move':
             l = term['args'][0]['pl']['l']
             tok = frozenset(x for x in tok if not (len(x) > 3 and x[0] == 'F' and x[1] == 'HOLDW' and x[3] == l))
